@@ -15,7 +15,7 @@
 From Coq Require Import String.
 From Coq Require Import QArith Qreals List Bool Arith ZArith Reals Lra Lia FunctionalExtensionality.
 From Dadi Require Import Base.Num Base.NumR Model.Tridiag Model.Scheme Model.NDSweep Model.Equilibrium Model.PhiManip
-                         Model.FromPhi Model.DSL Model.ProgSem Proofs.Drivers Proofs.DSLProofs
+                         Model.FromPhi Model.DSL Model.ProgSem Proofs.Drivers Proofs.DSLProofs Proofs.DSLInstance
                          Proofs.PhiManipDeposit Proofs.PhiManipTable.
 Import ListNotations.
 Local Open Scope bool_scope.
@@ -424,3 +424,13 @@ Section Concrete.
     rewrite !app_nth1; [reflexivity| |]; rewrite firstn_length; lia.
   Qed.
 End Concrete.
+
+(** the static check on example programs (as produced by the translator from the unchanged tree) *)
+Lemma prog_ok_examples :
+  prog_ok DSLInstance.ex_split_mig KInit = true /\ ends_in_fs DSLInstance.ex_split_mig KInit = true /\
+  prog_ok DSLInstance.ex_IM_pre KInit = true /\ prog_ok DSLInstance.ex_bgsm_sel KInit = true /\
+  prog_ok (Step (IPulse 2 [0%nat] 1 [Const 0]) Done) KInit = false /\
+  prog_ok (Step IGrid (Step (IPhi1D (Const 1) (Const 1) (Const 0) (Const (1 # 2)) (Const 1))
+            (Step (IIntegrate (Var 0) [Const 1; Const 1] [[Const 0; Const 0]; [Const 0; Const 0]] [Const 0; Const 0]
+                              [Const (1 # 2); Const (1 # 2)] (Const 1) (Const 1) [false; false] [false; false]) Done))) KInit = false.
+Proof. repeat split; vm_compute; reflexivity. Qed.
